@@ -48,7 +48,7 @@ fn filters(tier: Tier) -> Vec<(String, Vec<Vec<f64>>)> {
 
 pub fn run(tier: Tier) -> i32 {
     let rep = Report::new("C07", tier, "model_checking");
-    rep.set_rule("SCOPE: per (rate in {8k,16k,48k,96k}) x (frame period in {40,80,81,240,480}): all 512 frame triples over {unvoiced, F0 in {20,55.3,123.4,440,rate/2,10(clamps to 20),30k(clamps to 20k)} Hz} followed by the first two symbols in reverse order and 18 repetitions of the third; filters: none plus the listed odd-length low-pass sets (constant and changing per frame); real Vocoder with zero spectrum; oracle: pulse height^2 = linearly gliding period, stationary spacing floor/ceil(T0), unit mean power, unvoiced samples bit-equal to the reference noise run (which is the same stream for frame periods 1, 40, 81, 162, 405 and 3240), LPF output = h*pulses + (delta-h)*noise; two vocoders (all pairs of 6 rate/period/low-pass configurations) stepped alternately on one thread produce what each produces alone; distinct = (cell, triple, filter); non-trivial = contains a voiced frame");
+    rep.set_rule("SCOPE: per (rate in {8k,16k,48k,96k}) x (frame period in {40,80,81,240,480}): all 512 frame triples over {unvoiced, F0 in {20,55.3,123.4,440,rate/2,10(clamps to 20),30k(clamps to 20k)} Hz} followed by the first two symbols in reverse order and 18 repetitions of the third; filters: none plus the listed odd-length low-pass sets (constant and changing per frame); real Vocoder with zero spectrum; oracle: pulse height^2 = linearly gliding period, stationary spacing floor/ceil(T0), unit mean power, unvoiced samples bit-equal to the reference noise run (which is the same stream for frame periods 1, 40, 81, 162, 405 and 3240), LPF output = h*pulses + (delta-h)*noise; a slice longer than the frame period gives the same frame and is not written behind it (both filter families); two vocoders (all pairs of 6 rate/period/low-pass configurations) stepped alternately on one thread produce what each produces alone; distinct = (cell, triple, filter); non-trivial = contains a voiced frame");
     rep.assume("F0 values on the 7-point lattice; T0 is an exact integer for no lattice point (first inter-pulse interval after an onset is ceil(T0)-1 = floor(T0))");
     let rates = [8000usize, 16000, 48000, 96000];
     let fps = [40usize, 80, 81, 240, 480];
@@ -304,6 +304,46 @@ pub fn run(tier: Tier) -> i32 {
                     }
                     (_, _, Err(p)) => rep.violation("interleaved-panic", p, rp),
                     _ => {}
+                }
+            }
+        }
+    }
+    // the vocoder renders one frame per call, however long the caller's slice is: the first fperiod samples are the
+    // frame, the rest of the slice is the caller's (both filter families)
+    {
+        let f0s = [-1e10, 123.4f64.ln(), 200f64.ln(), -1e10, 55.3f64.ln(), 55.3f64.ln()];
+        for (stage, spec) in [(0usize, vec![0.1, 0.2, -0.1]), (2, vec![1.0, 1.0, 2.0]), (1, vec![0.7, 0.8, 2.2])] {
+            for (rate, fp, nlpf) in [(16000usize, 80usize, 0usize), (16000, 81, 3), (48000, 240, 5)] {
+                let lpf: Vec<f64> = (0..nlpf).map(|k| if k == nlpf / 2 { 0.6 } else { 0.1 }).collect();
+                let (sp, lp) = (spec.clone(), lpf.clone());
+                let r = catch(move || {
+                    let mut exact = Vocoder::new(3, nlpf, stage, false, rate, 0.42, 0.0, 1.0, fp);
+                    let mut long = Vocoder::new(3, nlpf, stage, false, rate, 0.42, 0.0, 1.0, fp);
+                    let mut bad: Option<String> = None;
+                    for (fi, f0) in f0s.iter().enumerate() {
+                        let mut a = vec![0.0; fp];
+                        exact.synthesize(*f0, &sp, &lp, &mut a);
+                        let extra = [1usize, fp, 2 * fp + 1][fi % 3];
+                        let mut b = vec![7.25; fp + extra];
+                        long.synthesize(*f0, &sp, &lp, &mut b);
+                        if !bits_eq(&a, &b[..fp]) {
+                            bad = Some(format!("frame {}: a slice of {} samples gives another frame than a slice of exactly {}", fi, fp + extra, fp));
+                            break;
+                        }
+                        if b[fp..].iter().any(|x| *x != 7.25) {
+                            bad = Some(format!("frame {}: the vocoder wrote behind the frame into the caller's slice", fi));
+                            break;
+                        }
+                    }
+                    bad
+                });
+                rep.eval(1);
+                rep.cmp(2);
+                let rp = json!({"stage": stage, "rate": rate, "fperiod": fp, "lowpass_taps": nlpf, "spectrum": spec});
+                match r {
+                    Err(p) => rep.violation(format!("panic@{}", site_of(&p)), p, rp),
+                    Ok(Some(what)) => rep.violation("slice-length", format!("{} (stage {}, rate {}, frame period {})", what, stage, rate, fp), rp),
+                    Ok(None) => {}
                 }
             }
         }
